@@ -12,6 +12,7 @@
 // flight, or `idle` consecutive event-loop rounds (each waits up to 50 ms for an event) in which
 // nothing at all happened: no stanza, no byte through the proxy, no state change — counted in
 // rounds of this process, not in wall-clock time, so a starved process does not look stalled.
+#include "ibb_device.h"
 #include "relay.h"
 
 #include <QCryptographicHash>
@@ -245,8 +246,9 @@ void runS5(Ctx &ctx, const QString &caseId, const QJsonObject &beh, int idx)
     proxy.fault.bitSeed = seed >> 3;
 
     const QString ann = beh["ann"].toString("both");
+    const QString dev = beh["dev"].toString("all");   // the receiver's output device (harness/ibb_device.h), misbehaving at its first write
     ctx.reset(caseId, { { "size", double(size) }, { "unit", double(unit) }, { "n", double((size + unit - 1) / unit) },
-                        { "k", proxy.fault.k }, { "at", fo["at"].toInt() }, { "ann", ann } });
+                        { "k", proxy.fault.k }, { "at", fo["at"].toInt() }, { "ann", ann }, { "dev", dev } });
 
     // the model behaviour this execution stands for, echoed for the trace specification
     for (const auto &sv : steps) {
@@ -260,7 +262,9 @@ void runS5(Ctx &ctx, const QString &caseId, const QJsonObject &beh, int idx)
     }
 
     QBuffer sendBuf;
-    CountingBuffer recvBuf;
+    FaultyBuffer recvBuf;
+    recvBuf.mode = dev;
+    recvBuf.at = dev == "all" ? 0 : 1;
     TestClient::resetIdCounter();
     auto a = std::make_unique<TestClient>(TestClient::NoExtensions, kA);
     auto b = std::make_unique<TestClient>(TestClient::NoExtensions, kB);
@@ -441,6 +445,8 @@ void runS5(Ctx &ctx, const QString &caseId, const QJsonObject &beh, int idx)
         { "applied", proxy.applied },
         { "trap", trapHits },
         { "ann", ann },
+        { "dev", dev },
+        { "devbad", recvBuf.misbehaved },
         { "k", proxy.fault.k },
         { "fwd", double(proxy.forwarded) },
         { "seen", double(proxy.seen) },
